@@ -629,6 +629,36 @@ func (sc *c17Scenario) Run(s *simrt.Sim) {
 			sc.checkRequest(tr.recs[len(tr.recs)-1], serialized, add)
 		}
 	}
+	if sc.isMultipart() && sc.BodyKind == "obj" && sc.Fault == "none" && sc.Evals >= 1 && !sc.hung {
+		// the same MonadIO evaluated twice AT THE SAME TIME (two subscribers on two handlers): every evaluation still
+		// issues its own, complete request
+		h1, h2 := fpgo.Handler.New(), fpgo.Handler.New()
+		before := len(tr.recs)
+		done := 0
+		on := fpgo.Subscription[*network.APIResponse[c17Resp]]{OnNext: func(r *network.APIResponse[c17Resp]) {
+			if r == nil || r.Err != nil {
+				add("response", "concurrent-evaluation-failed", fmt.Sprintf("one of two simultaneous evaluations of the same MonadIO failed: %+v", r))
+			}
+			done++
+		}}
+		h.Do("main", "Subscribe x2 on two handlers", nil, func() (interface{}, error) {
+			io_.ObserveOn(h1).Subscribe(on)
+			io_.ObserveOn(h2).Subscribe(on)
+			return nil, nil
+		})
+		if !s.WaitUntilTimeout(func() bool { return done == 2 }, 5*time.Minute) {
+			add("hang", "concurrent-evaluations-did-not-finish", fmt.Sprintf("two simultaneous evaluations of the same MonadIO: %d finished", done))
+		} else if n := len(tr.recs) - before; n != 2 {
+			add("one-request-per-evaluation", "concurrent-evaluations", fmt.Sprintf("two simultaneous evaluations issued %d requests", n))
+		} else {
+			for _, rec := range tr.recs[before:] {
+				sc.checkRequest(rec, serialized, add)
+			}
+		}
+		h1.Close()
+		h2.Close()
+		sc.probes["two-simultaneous-evaluations-of-one-multipart-call"]++
+	}
 	if fmt.Sprint(headerBefore) != fmt.Sprint(api.DefaultHeader) {
 		add("header-copy", "DefaultHeader-mutated", fmt.Sprintf("DefaultHeader changed from %v to %v (requests must carry a copy)", headerBefore, api.DefaultHeader))
 	}
